@@ -30,6 +30,8 @@ from diffrun import *
 ENGINE = "cpukinds"
 STRATEGIES = ["dflt", "no_forced_efficiency", "forced_efficiency", "coretype+frequency", "coretype+frequency_strict",
               "coretype", "frequency", "frequency_max", "frequency_base", "none", "bogus_value"]
+ENVVALS = ["dflt", "default", "no_forced_efficiency", "forced_efficiency", "coretype+frequency", "coretype+frequency_strict",
+           "coretype", "frequency", "frequency_max", "frequency_base", "none", "bogus_value"]   # = envvals[] of the harness
 KNOWN_ID = "F20"
 SWITCH = "VERIF_C15_INCLUDE_STALE_SLOT_DEFECT"
 
@@ -101,13 +103,22 @@ def harness_env(seed=None, strat="dflt", libxml=True, include_stale=True, ireg=F
     return env
 
 
-def one_run(binp, workdir, idx, seed, nops, strat, libxml, ireg=False):
+def one_run(binp, workdir, idx, seed, nops, strat, libxml, ireg=False, mix=None):
+    """mix: None | "mix" (HWLOC_CPUKINDS_RANKING changes between / inside episodes, a quarter of them ranking-focused) |
+    "rank" (same, every episode ranking-focused: every strategy re-ranks every scenario)"""
     d = os.path.join(workdir, "r%d" % idx)
     os.makedirs(d, exist_ok=True)
     ops, cout, mout, st = [os.path.join(d, x) for x in ("ops.txt", "c.out", "m.out", "stats.txt")]
-    r = run([binp, str(nops), ops, cout, st], env=harness_env(seed, strat, libxml, ireg=ireg))
+    env = harness_env(seed, strat, libxml, ireg=ireg)
+    env.pop("VERIF_C15_ENVMIX", None)
+    env.pop("VERIF_C15_PROFILE", None)
+    if mix:
+        env["VERIF_C15_ENVMIX"] = "1"
+        if mix == "rank":
+            env["VERIF_C15_PROFILE"] = "4"
+    r = run([binp, str(nops), ops, cout, st], env=env)
     res = {"seed": seed, "rc": r.returncode, "san": r.stdout[-3000:] if r.returncode else "", "dir": d,
-           "strat": strat + ("+ireg" if ireg else ""), "libxml": libxml}
+           "strat": (mix if mix else strat) + ("+ireg" if ireg else ""), "libxml": libxml}
     if os.path.exists(ops):
         run_model(ENGINE, ops, mout)
         o, c, m = read_lines(ops), read_lines(cout), read_lines(mout)
@@ -146,9 +157,13 @@ def shrink(binp, workdir, ops, libxml):
     """episodes are independent (every `init` builds a fresh topology): keep the `env` line and the `init` of the
     failing episode fixed, delta-debug the ops after it"""
     d = os.path.join(workdir, "shrink")
-    strat = strat_of(ops)
     env_head = [o for o in ops[:1] if o.startswith("env ")]
     inits = [i for i, o in enumerate(ops) if o.startswith(("init ", "initd "))]
+    if inits:
+        # the value of HWLOC_CPUKINDS_RANKING in force when the failing episode starts (`env` lines set it for real)
+        envs = [o for o in ops[:inits[-1]] if o.startswith("env ")]
+        env_head = envs[-1:] if envs else env_head
+    strat = strat_of(env_head)
     if inits:
         head, body = env_head + [ops[inits[-1]]], ops[inits[-1] + 1:]
     else:
@@ -231,10 +246,17 @@ def run_engine(tier, seed, corpus_dir=None):
         nops = 400000
         plan = [("dflt", i % 2 == 0) for i in range(28)] + [(s, (i + j) % 2 == 0) for j in range(2) for i, s in enumerate(STRATEGIES[1:])]
     jobs = [(i, seed * 1000003 + i, nops, s, lx) for i, (s, lx) in enumerate(plan)]
+    # A7: streams in which HWLOC_CPUKINDS_RANKING changes between the calls of one process (every value in every stream)
+    nmix, nrank = (2, 3) if tier == "quick" else (4, 8)
+    mixjobs = [(1000 + i, seed * 1000003 + 1000 + i, nops, "dflt", i % 2 == 0, i % 3 == 2, "mix" if i < nmix else "rank")
+               for i in range(nmix + nrank)]
+    if os.environ.get("VERIF_C15_NO_MIX", "0") not in ("", "0"):   # development knob: the streams as they were before A7
+        mixjobs = []
     # side streams through the internal entry point (flags 0 / OVERWRITE / invalid, no ranking), default strategy and one other
     nireg = 2 if tier == "quick" else 6
     jobs += [(len(plan) + i, seed * 1000003 + len(plan) + i, nops, ("dflt" if i % 2 == 0 else STRATEGIES[1 + (seed + i) % (len(STRATEGIES) - 1)]),
               i % 4 < 2, True) for i in range(nireg)]
+    jobs += mixjobs
     # corpus first
     problems = []
     corpus = os.path.join(ROOT, "corpus", ENGINE)
@@ -301,7 +323,11 @@ def run_engine(tier, seed, corpus_dir=None):
                 "by_einval", "ranked", "unranked", "reg_einval", "outside_root",
                 "dis_episodes", "allow_ok", "allow_einval", "allow_strict", "reg_over_disallowed", "restrict_ok_strict",
                 "restrict_keeps_disallowed_kind_pu", "restrict_einval_misses_allowed", "restrict_removed_strict",
-                "dup_strict", "xml_strict", "by_disallowed_idx"]
+                "dup_strict", "xml_strict", "by_disallowed_idx",
+                "env_switch", "rank_episodes", "rk_forced_distinct", "rk_forced_ties", "rk_forced_partial", "rk_forced_none",
+                "rk_override", "rk_restrict", "rawset", "rawswap", "rawrank", "raw_negative_forced"]
+    # every value of HWLOC_CPUKINDS_RANKING must have re-ranked >= 2 kinds with both outcomes (`none` can only fail)
+    must_hit += ["sweep_%s_unranked" % v for v in ENVVALS] + ["sweep_%s_ranked" % v for v in ENVVALS if v != "none"]
     missed = [b for b in must_hit if not stats.get(b)]
     return {"evaluations": total, "distinct_nontrivial": len(distinct), "benign_repr_diffs": benign,
             "distribution": stats, "per_strategy_ops": per_strategy, "must_hit_missed": missed,
@@ -313,4 +339,9 @@ def run_engine(tier, seed, corpus_dir=None):
                     "and hwloc_topology_allow (CUSTOM subsets / ALL / invalid) before and between the other calls (register over subsets of a 16(+2)-PU "
                     "universe incl. EQUAL/CONTAINS/INCLUDED/INTERSECTS shapes, NULL/empty sets, non-zero flags; restrict; dup; XML "
                     "round trip with libxml and nolibxml; refresh), 2-4 get_by_cpuset queries after each; a case is one op line "
-                    "applied to the current topology; distinct = distinct (op kind, public observation) pairs"}
+                    "applied to the current topology; distinct = distinct (op kind, public observation) pairs; "
+                    "A7: `mix` / `rank` streams switch HWLOC_CPUKINDS_RANKING (12 values incl. unset, `default`, unrecognised) between "
+                    "the calls of one process (op `env` does the setenv) and build ranking scenarios (forced efficiencies all known "
+                    "and distinct / ties / partially unknown / unknown x CoreType, FrequencyMaxMHz, FrequencyBaseMHz absent / distinct "
+                    "/ equal across kinds / missing in one kind / non-numeric / zero / beyond 2^20) that are re-ranked under EVERY "
+                    "value (counters sweep_<value>_ranked / _unranked)"}
